@@ -241,29 +241,11 @@ theorem compileWith_messages_located_partial (tbl : List Rule) (src m : String) 
 
 #print axioms compileWith_messages_located_partial
 
-/-- The unlocated message is reachable: 70 unclosed `[` exhaust the parser fuel `4 * tokens + 64`
-(the nesting `parsePrecedence → prefixRule → argumentList → argumentLoop → expression` costs 5 per
-bracket), so B2 without the exception is FALSE for the model. -/
-theorem compileWith_messages_all_located_false :
-    ¬ ∀ (tbl : List Rule) (src m : String) (msgs : List String), compileWith tbl src m = .error msgs →
-        ∀ e ∈ msgs, ∃ rest, e = "[module \"" ++ m ++ "\", line " ++ rest := by
-  intro hall
-  have hm : "spec parser: fuel exhausted" ∈
-      msgsOf (compileWith rules (String.ofList (List.replicate 70 '[')) "main") := by decide +kernel
-  cases hc : compileWith rules (String.ofList (List.replicate 70 '[')) "main" with
-  | ok f => rw [hc] at hm; cases hm
-  | error msgs =>
-    rw [hc] at hm
-    obtain ⟨rest, hr⟩ := hall _ _ _ _ hc _ hm
-    have h1 := congrArg (fun s => s.toList.head?) hr
-    have h2 : ("[module \"" ++ "main" ++ "\", line " ++ rest).toList.head? = some '[' := by
-      rw [String.append_assoc, String.append_assoc, String.toList_append]
-      rfl
-    have h3 : "spec parser: fuel exhausted".toList.head? = some 's' := by decide +kernel
-    simp only [h2, h3] at h1
-    cases h1
-
-#print axioms compileWith_messages_all_located_false
+/- Whether the unlocated message is reachable at all depends on the parser fuel (`16 * tokens + 64`, a bound on the nesting
+depth of the mutual block): with the earlier `4 * tokens + 64` seventy unclosed `[` exhausted it (the chain
+`parsePrecedence → prefixRule → argumentList → argumentLoop → expression` costs 5 per bracket), which made (S) disagree with the
+implementation on deeply nested malformed input; no chain costs 16 per token, but that the message is now unreachable is NOT
+proved, hence the exception stays in `compileWith_messages_located`. -/
 
 /- non-vacuity (kernel-evaluated): an `.ok` text, a text with two located errors -/
 example : msgsOf (compile "var x = 1; print(x);") = [] ∧
